@@ -792,7 +792,7 @@ func TestVerif_C26(t *testing.T) {
 	})
 	maxRows := vh.N(120, 300)
 	nQueries := vh.N(45, 60)
-	vh.Check(t, "diff", 40, 150, func(rt *rapid.T) {
+	vh.Check(t, "diff", 100, 150, func(rt *rapid.T) {
 		db := srv.NewDBName()
 		admin.MustExec(rt, "CREATE DATABASE "+db)
 		defer admin.Exec("DROP DATABASE " + db)
